@@ -82,9 +82,9 @@ def gen_text(rng, cls):
         samp = f"{rng.randrange(4)}:{rng.randrange(4)}:{rng.choice([0, 1, 2, 0, 1, 2, 99, 255, 256, 300, 70000])}:{rng.choice([0, 30, 70, 100])}:{rng.choice(['', '', '', rng.choice(FILES)])}"
         if rng.random() < 0.3:
             end = tt + rng.choice([0, 1, 50, 500, 12345])
-            objs.append(f"{x},192,{tt},128,{hs},{end}:{samp}")
+            objs.append(f"{x},192,{tt},{rng.choice([128, 128, 132, 148, 128 | 64, 128 | 4 | 32])},{hs},{end}:{samp}")  # new-combo / colour-skip bits do not change the kind
         else:
-            objs.append(f"{x},192,{tt},{rng.choice([1, 1, 5])},{hs},{samp}")
+            objs.append(f"{x},192,{tt},{rng.choice([1, 1, 5, 21, 1 | 32, 1 | 64, 1 | 4 | 16 | 32 | 64])},{hs},{samp}")
     if rng.random() < 0.3:
         rng.shuffle(objs)
     L += objs
